@@ -450,7 +450,10 @@ class StringExpr:
         if not isinstance(expression, Token):
             expression = Token(expression, 0)
 
-        self.translator = Interpolator(expression, braces_required)
+        # The parts of the string are inserted as they are; what the
+        # string is used for decides how the whole of it is escaped
+        self.translator = Interpolator(
+            expression, braces_required, char_escape=())
 
     def __call__(self, name, engine):
         return self.translator(name, engine)
